@@ -24,6 +24,7 @@ type Meta struct {
 	DistinctNontrivial int            `json:"distinct_nontrivial"`
 	Rule               string         `json:"rule"`
 	Samples            []any          `json:"samples"`
+	Programs           int            `json:"programs,omitempty"`
 	Distribution       map[string]any `json:"distribution"`
 	// Direct violations found by the engine itself (runtime observations the model cannot carry,
 	// e.g. a hang or a crash); each has a replay description.
